@@ -182,9 +182,13 @@ def ladder_config(seed):
     T = float(rng.uniform(20, 40))
     ts = float(rng.choice([0.25, 0.5]))
     lla0 = [float(rng.uniform(-70, 70)), float(rng.uniform(-180, 180)), float(rng.uniform(0, 3000))]
-    vm = rng.uniform(-10, 10, 3) * np.array([1, 1, 0.03 if wa else 0])
-    va = rng.uniform(1, 4, 3) * np.array([1, 1, 0.15 if wa else 0])
-    period = float(rng.uniform(12, 30))
+    # gentle dynamics: the horizontal speed never drops near zero (|v_mean| >= 2 |v_ampl|), otherwise the velocity-aligned heading spins at
+    # rad/s and the piecewise-constant F(t) of the LINEAR MODEL (both filters) leaves a scale-independent first-order remainder of 0.1..0.2 sd
+    # (seen in a thorough run: constant 0.15 sd from s0 down to s0/100) that has nothing to do with the feedback
+    va = rng.uniform(1, 3, 3) * np.array([1, 1, 0.15 if wa else 0])
+    hd_ = rng.uniform(0, 2 * np.pi)
+    vm = np.array([np.cos(hd_), np.sin(hd_), 0.0]) * rng.uniform(2.0, 3.5) * np.hypot(va[0], va[1]) + np.array([0, 0, rng.uniform(-0.2, 0.2) if wa else 0.0])
+    period = float(rng.uniform(15, 30))
     sensors = [c for c in ('Position', 'NedVelocity', 'BodyVelocity') if rng.random() < 0.6] or ['Position']
     return dict(wa=wa, sm=sm, T=T, ts=ts, lla0=lla0, vm=vm.tolist(), va=va.tolist(), period=period, sensors=sensors,
                 e_pos=(rng.uniform(-1, 1, 3)).tolist(), e_vel=(rng.uniform(-1, 1, 3)).tolist(), e_att=(rng.uniform(-1, 1, 3)).tolist(),
@@ -197,12 +201,15 @@ def ladder_run(cfg, s):
     from pyins import filters, sim, strapdown, measurements, inertial_sensor, transform
     DT = 0.0125
     wa = cfg['wa']
-    traj, imu = sim.generate_sine_velocity_motion(DT, cfg['T'], cfg['lla0'], cfg['vm'], cfg['va'], cfg['period'])
+    # increment-type IMU: its strapdown truncation error (the UNSCALED part of the scenario) is ~50x below that of rate samples, which keeps
+    # the ladder inside the 'error scale s' regime also when dense accurate fixes shrink the standard deviations to mm/s
+    ST = 'increment'
+    traj, imu = sim.generate_sine_velocity_motion(DT, cfg['T'], cfg['lla0'], cfg['vm'], cfg['va'], cfg['period'], sensor_type=ST)
     pos_sd, vel_sd, lev_sd, az_sd = 10 * s, 1 * s, 0.5 * s, 2 * s
     Tm = np.eye(3) + (np.array(cfg['smat']) * s if cfg['sm'] else 0)
     gp = inertial_sensor.Parameters(transform=Tm, bias=np.array(cfg['gb']) * s)
     ap = inertial_sensor.Parameters(transform=np.eye(3) + (np.diag(np.diag(np.array(cfg['smat']))) * s if cfg['sm'] else 0), bias=np.array(cfg['ab']) * s)
-    inc = strapdown.compute_increments_from_imu(inertial_sensor.apply_imu_parameters(imu, 'rate', gp, ap), 'rate')
+    inc = strapdown.compute_increments_from_imu(inertial_sensor.apply_imu_parameters(imu, ST, gp, ap), ST)
     nrm = np.random.RandomState(cfg['nseed']).randn(400, 3)         # one recorded normal sample, scaled with s
     t = np.asarray(traj.index, float)
     meas = []
